@@ -15,8 +15,18 @@ from .common import LX, ckey
 PACKETS = ("ReadTagRequestPacket", "ReadTagFragmentedRequestPacket", "WriteTagRequestPacket", "WriteTagFragmentedRequestPacket", "ReadModifyWriteRequestPacket", "MultiServiceRequestPacket")
 
 
+_LX_CI = [None]
+
+
 def _lx(ctx):
-    return ctx.model.cls(f"{LX}:LogixDriver")
+    _LX_CI[0] = ctx.model.cls(f"{LX}:LogixDriver")
+    return _LX_CI[0]
+
+
+def _me(**kw):
+    """A witness driver instance: carries its class, so a private helper method the rule does not know (an extracted
+    method) is folded through the MRO instead of stopping the fold."""
+    return Obj(_ci=_LX_CI[0], **kw)
 
 
 def tag_witness(tag, value, type_=None, error=None):
@@ -99,7 +109,7 @@ def d1_14(ctx):
         sent = []
         hook = chain(tag_hook, self_call("_parse_requested_tags", lambda a, k: {i: dict(p) for i, p in parsed.items()} if (list(a[0]), a[1] if len(a) > 1 else k.get("rw")) == (list(tags), "r") else UNKNOWN),
                      self_call("_read_build_requests", lambda a, k: ("requests", sorted(a[0]))), self_call("_send_requests", lambda a, k: sent.append(a[0]) or dict(results)))
-        kind, res = run_function(ctx, lx.module, fn, {"self": Obj(), fn.args.vararg.arg: tags}, call_hook=hook, deep=False)
+        kind, res = run_function(ctx, lx.module, fn, {"self": _me(), fn.args.vararg.arg: tags}, call_hook=hook, deep=False)
         if kind == "return":
             res = [tag_tuple(x) for x in res] if isinstance(res, list) else tag_tuple(res)
         _report(ctx, ckey(lx.key + ".read", f"witness:{label}"), fn, label, (kind, res), ("return", want), "read")
@@ -125,7 +135,7 @@ def d1_14(ctx):
     # a result that is missing altogether is reported against the user's tag, not raised
     tags = ("lost",)
     hook = chain(tag_hook, self_call("_parse_requested_tags", lambda a, k: {0: _parsed(0, "lost")}), self_call("_read_build_requests", lambda a, k: []), self_call("_send_requests", lambda a, k: {}))
-    kind, res = run_function(ctx, lx.module, fn, {"self": Obj(), fn.args.vararg.arg: tags}, call_hook=hook, deep=False)
+    kind, res = run_function(ctx, lx.module, fn, {"self": _me(), fn.args.vararg.arg: tags}, call_hook=hook, deep=False)
     key = ckey(lx.key + ".read", "witness:missing result")
     if kind == "unknown":
         ctx.undecided(key, fn, f"read not foldable on a missing result: {res}")
@@ -165,7 +175,7 @@ def d3_11(ctx):
             return UNKNOWN
 
         hook = chain(tag_hook, isinst, self_call("_parse_requested_tags", parse), self_call("_write_build_requests", build), self_call("_send_requests", lambda a, k: dict(results)))
-        kind, res = run_function(ctx, lx.module, fn, {"self": Obj(), fn.args.vararg.arg: args}, call_hook=hook, deep=False)
+        kind, res = run_function(ctx, lx.module, fn, {"self": _me(), fn.args.vararg.arg: args}, call_hook=hook, deep=False)
         if kind == "return":
             res = [tag_tuple(x) for x in res] if isinstance(res, list) else tag_tuple(res)
         key = ckey(lx.key + ".write", f"witness:{label}")
@@ -201,7 +211,7 @@ def d3_11(ctx):
     run("failed reply keeps the user's tag and value with the reply's error", (("d1", 5),), {0: _parsed(0, "d1")}, [plain(0)], {0: T("d1", None, None, "Privilege violation")}, ("d1", 5, "DINT", "Privilege violation"))
     # missing result -> falsy Tag, not an exception
     hook = chain(tag_hook, self_call("_parse_requested_tags", lambda a, k: {0: _parsed(0, "lost")}), self_call("_write_build_requests", lambda a, k: []), self_call("_send_requests", lambda a, k: {}))
-    kind, res = run_function(ctx, lx.module, fn, {"self": Obj(), fn.args.vararg.arg: (("lost", 1),)}, call_hook=hook, deep=False)
+    kind, res = run_function(ctx, lx.module, fn, {"self": _me(), fn.args.vararg.arg: (("lost", 1),)}, call_hook=hook, deep=False)
     key = ckey(lx.key + ".write", "witness:missing result")
     if kind == "unknown":
         ctx.undecided(key, fn, f"write not foldable on a missing result: {res}")
@@ -279,7 +289,7 @@ def describe(o):
 def _driver(**kw):
     base = dict(_sequence="SEQ", _cfg={"use_instance_ids": "UID"}, connection_size=500, _micro800=False)
     base.update(kw)
-    return Obj(**base)
+    return _me(**base)
 
 
 def _wparsed(i, user_tag, plc_tag=None, value=1, **kw):
@@ -451,7 +461,7 @@ def d1_16(ctx):
                 raise _Raise(r)
             return r
 
-        kind, res = run_function(ctx, lx.module, fn, {"self": Obj(), fn.args.args[1].arg: requests}, call_hook=chain(tag_hook, self_call("send", send)), deep=False)
+        kind, res = run_function(ctx, lx.module, fn, {"self": _me(), fn.args.args[1].arg: requests}, call_hook=chain(tag_hook, self_call("send", send)), deep=False)
         if kind == "return" and isinstance(res, dict):
             res = {k: tag_tuple(v) for k, v in res.items()}
         _report(ctx, ckey(lx.key + "._send_requests", f"witness:{label}"), fn, label, (kind, res), ("return", want), "_send_requests")
@@ -465,7 +475,7 @@ def d1_16(ctx):
     run("read and write, results kept apart", [rd, wr], {id(rd): _resp(True, value=1, data_type="DINT", error=None), id(wr): _resp(False, error="Privilege violation", value=None, data_type=None)},
         {4: ("d1", 1, "DINT", None), 7: ("d2", None, None, "Privilege violation")})
     for exc in ("RequestError", "ResponseError"):
-        kind, res = run_function(ctx, lx.module, fn, {"self": Obj(), fn.args.args[1].arg: [rd, wr]},
+        kind, res = run_function(ctx, lx.module, fn, {"self": _me(), fn.args.args[1].arg: [rd, wr]},
                                  call_hook=chain(tag_hook, self_call("send", lambda a, k: (_ for _ in ()).throw(_Raise(exc)) if a[0] is rd else _resp(True, value=None, data_type=None, error=None))), deep=False)
         key = ckey(lx.key + "._send_requests", f"witness:{exc} while sending one request")
         if kind == "unknown":
@@ -632,7 +642,7 @@ def d5_15(ctx):
         ("one program", "P1", True, ["P1"], ["Program:P1.x"]),
         ("all scopes, not cached", "*", False, [None, "P1", "P2"], ["A", "B", "Program:P1.x", "Program:P2.y"]),
     ):
-        me = Obj(_info={"name": "plc", "programs": {"OLD": {}}, "tasks": {"OLDT": {}}, "modules": {"OLDM": {}}}, _cache=None, _tags={"stale": {"tag_name": "stale"}})
+        me = _me(_info={"name": "plc", "programs": {"OLD": {}}, "tasks": {"OLDT": {}}, "modules": {"OLDM": {}}}, _cache=None, _tags={"stale": {"tag_name": "stale"}})
         calls, problems = [], []
 
         def upload(a, k, me=me, calls=calls, problems=problems):
@@ -740,7 +750,7 @@ def d5_16(ctx):
             a[1].append(("symbol", a[0].idx))
             return replies[a[0].idx][1]
 
-        me = Obj(_sequence="SEQ", revision_major=rev)
+        me = _me(_sequence="SEQ", revision_major=rev)
         kind, res = run_function(ctx, lx.module, fn, {"self": me, fn.args.args[1].arg: program}, call_hook=chain(seg_hook, new_request, self_call("send", send), self_call("_parse_instance_attribute_list", parse)), deep=False)
         key = ckey(lx.key + "._get_instance_attribute_list_service", f"witness:{label}")
         if kind == "unknown":
@@ -779,7 +789,7 @@ def d5_16(ctx):
     ):
         data = b"".join(record(*r) for r in recs)
         out = []
-        me = Obj(revision_major=rev)
+        me = _me(revision_major=rev)
         kind, res = run_function(ctx, lx.module, fn, {"self": me, fn.args.args[1].arg: _resp(True, data=data, service_status=status), fn.args.args[2].arg: out}, deep=False)
         key = ckey(lx.key + "._parse_instance_attribute_list", f"witness:{label}")
         if kind == "unknown":
@@ -789,7 +799,7 @@ def d5_16(ctx):
                  "external_access": (ea.get(r[7], "Unknown") if isinstance(ea, dict) else None)} for r in recs]
         ctx.check(kind == "return" and res == want_next and out == want, key, fn, f"{label}: {len(recs)} record(s), continue at {want_next}", f"symbol-list reply ({label}): {kind} {res!r} (expected {want_next}); records {out!r} (expected {want!r})"[:900], witness=label)
     # an empty / cut reply
-    kind, res = run_function(ctx, lx.module, fn, {"self": Obj(revision_major=minver), fn.args.args[1].arg: _resp(True, data=record(5, "Counter", 0xC4, 1, 2, 3, (0, 0, 0), 0)[:-6], service_status=SUCCESS), fn.args.args[2].arg: []}, deep=False)
+    kind, res = run_function(ctx, lx.module, fn, {"self": _me(revision_major=minver), fn.args.args[1].arg: _resp(True, data=record(5, "Counter", 0xC4, 1, 2, 3, (0, 0, 0), 0)[:-6], service_status=SUCCESS), fn.args.args[2].arg: []}, deep=False)
     key = ckey(lx.key + "._parse_instance_attribute_list", "witness:cut reply")
     if kind == "unknown":
         ctx.undecided(key, fn, f"_parse_instance_attribute_list not foldable on a cut reply: {res}")
@@ -817,7 +827,7 @@ def d1_17(ctx):
         ("program-scoped tag", "Program:P.x", [], ("return", tags["Program:P.x"])), ("unknown base tag", "nope", [], ("raise", "RequestError")), ("unknown member", "udt", ["zzz"], ("raise", "RequestError")),
         ("unknown nested member", "udt", ["inner", "zzz"], ("raise", "RequestError")),
     ):
-        kind, res = run_function(ctx, lx.module, fn, {"self": Obj(_tags=tags), fn.args.args[1].arg: base, fn.args.args[2].arg: list(attrs)}, call_hook=strip, deep=False)
+        kind, res = run_function(ctx, lx.module, fn, {"self": _me(_tags=tags), fn.args.args[1].arg: base, fn.args.args[2].arg: list(attrs)}, call_hook=strip, deep=False)
         _report(ctx, ckey(lx.key + "._get_tag_info", f"witness:{label}"), fn, label, (kind, res), want, "_get_tag_info")
     fn = lx.methods["_parse_requested_tags"]
 
@@ -830,7 +840,7 @@ def d1_17(ctx):
 
     str_hook = lambda call, env, it: "<error text>" if (call_name(call) or "") == "str" and len(call.args) == 1 and isinstance(call.args[0], ast.Name) and call.args[0].id == "err" else UNKNOWN  # noqa: E731
     for label, tgs, rw in (("three tags, the middle one bad", ["a", "bad", "b"], "r"), ("write mode", ["x"], "w"), ("generator of tags", ["p", "q"], "w")):
-        kind, res = run_function(ctx, lx.module, fn, {"self": Obj(), fn.args.args[1].arg: list(tgs), fn.args.args[2].arg: rw}, call_hook=chain(str_hook, self_call("_parse_tag_request", parse)), deep=False)
+        kind, res = run_function(ctx, lx.module, fn, {"self": _me(), fn.args.args[1].arg: list(tgs), fn.args.args[2].arg: rw}, call_hook=chain(str_hook, self_call("_parse_tag_request", parse)), deep=False)
         want = {i: ({"request_id": i, "request_tag": t, "plc_tag": t.upper(), "rw": rw} if t != "bad" else {"request_id": i, "request_tag": t, "error": "<error text>"}) for i, t in enumerate(tgs)}
         _report(ctx, ckey(lx.key + "._parse_requested_tags", f"witness:{label}"), fn, label, (kind, res), ("return", want), "_parse_requested_tags")
 
@@ -846,7 +856,7 @@ def d14_9(ctx):
     fn = lx.methods["get_plc_name"]
     for label, valid in (("valid reply", True), ("failed reply", False)):
         seen = {}
-        me = Obj(_info={})
+        me = _me(_info={})
         gm = self_call("generic_message", lambda a, k: seen.update(k) or _resp(valid, value="MainPLC" if valid else None, error=None if valid else "Service not supported"))
         kind, res = run_function(ctx, lx.module, fn, {"self": me}, call_hook=gm, deep=False)
         key = ckey(lx.key + ".get_plc_name", f"witness:{label}")
@@ -871,7 +881,7 @@ def d14_9(ctx):
             return ("encoded", env[f.value.id].members, tuple(it.ev(call.args[0], env)))
         return UNKNOWN
 
-    kind, res = run_function(ctx, lx.module, fn, {"self": Obj(), fn.args.args[1].arg: 1_600_000_000_123_456}, call_hook=chain(struct_hook, self_call("generic_message", lambda a, k: seen.update(k) or "REPLY")), deep=False)
+    kind, res = run_function(ctx, lx.module, fn, {"self": _me(), fn.args.args[1].arg: 1_600_000_000_123_456}, call_hook=chain(struct_hook, self_call("generic_message", lambda a, k: seen.update(k) or "REPLY")), deep=False)
     key = ckey(lx.key + ".set_plc_time", "witness:explicit time")
     if kind == "unknown":
         ctx.undecided(key, fn, f"set_plc_time not foldable: {res}")
@@ -898,7 +908,7 @@ def d16_8(ctx):
     for label, valid, micro, status in (("valid reply", True, False, bytes([b0, b1])), ("valid reply, unknown key-switch bytes", True, True, b"\xfe\xfd"), ("failed reply", False, False, None)):
         seen = {}
         gm = self_call("generic_message", lambda a, k: seen.update(k) or _resp(valid, value={"vendor": "Rockwell", "status": status} if valid else None, error=None if valid else "Service not supported"))
-        kind, res = run_function(ctx, lx.module, fn, {"self": Obj(_micro800=micro, _info={"vendor": "an earlier device", "keyswitch": "EARLIER", "status": b"\x00\x00", "name": "plc"})}, call_hook=gm, deep=False)
+        kind, res = run_function(ctx, lx.module, fn, {"self": _me(_micro800=micro, _info={"vendor": "an earlier device", "keyswitch": "EARLIER", "status": b"\x00\x00", "name": "plc"})}, call_hook=gm, deep=False)
         key = ckey(lx.key + ".get_plc_info", f"witness:{label}")
         if kind == "unknown":
             ctx.undecided(key, fn, f"get_plc_info not foldable on a {label}: {res}")
@@ -1262,7 +1272,7 @@ def d1_19(ctx):
                 return ("plain", it.ev(call.args[0], env))
             return UNKNOWN
 
-        kind, res = run_function(ctx, lx.module, fn, {"self": Obj(), fn.args.args[1].arg: req}, call_hook=hook, deep=False)
+        kind, res = run_function(ctx, lx.module, fn, {"self": _me(), fn.args.args[1].arg: req}, call_hook=hook, deep=False)
         key = ckey(lx.key + ".send", f"witness:{label}")
         if kind == "unknown":
             ctx.undecided(key, fn, f"send not foldable on a {label}: {res}")
